@@ -79,11 +79,23 @@ def main():
         finally:
             sh("git -C /repo checkout -- .")
     assert clean()
+    # results accumulate over invocations (a partial run only replaces its own rows)
+    store_path = os.path.join(MUT, "results.json")
+    store = json.load(open(store_path)) if os.path.exists(store_path) else {}
+    for r in rows:
+        key = "%s|%s" % (r[0], r[1])
+        old = store.get(key)
+        r = list(r)
+        if old and not r[4]:
+            r[4] = old[4]  # keep the last recorded repository-suite result when --baseline was not given
+        store[key] = r
+    json.dump(store, open(store_path, "w"), indent=1, sort_keys=True)
     with open(os.path.join(MUT, "RESULTS.md"), "w") as f:
-        f.write("Sensitivity (H/G/X must be DETECTED by the check of their property) and specificity (E must raise no alarm).\n\n")
+        f.write("Sensitivity (H/G/X must be DETECTED by the check of their property) and specificity (E must raise no alarm);\n")
+        f.write("K rows exercise the KNOWN-FINDING path. Generated by selftest.py (quick tier, VERIF_SEED=1).\n\n")
         f.write("| mutant | check | verdict | violation classes reported | repository test suite with the mutant |\n|---|---|---|---|---|\n")
-        for r in rows:
-            f.write("| %s | %s | %s | %s | %s |\n" % r)
+        for key in sorted(store):
+            f.write("| %s | %s | %s | %s | %s |\n" % tuple(store[key]))
     print("ALL EXPECTATIONS MET" if ok_all else "SOME EXPECTATIONS NOT MET")
     return 0 if ok_all else 1
 
